@@ -1,7 +1,56 @@
-import Driver.Util
-open Lean
+import Driver.ProgJson
+import Driver.TransKotlin
+import Heph.Model.TransScala
+import Heph.Spec.TransScalaSem
+/-! ops of the Scala translator model (same requests and answers as the `trans.kotlin.*` ops):
+ * `trans.scala` `{program: <export>, package: str|null, history?: [<export>…], reset?: bool}` → text of `program`
+   printed by a translator object that has already translated the programs of `history` (and, with
+   `reset`, had `_reset_state()` called after them)
+ * `trans.scala.doc` (same request) → `[[tag, name|null, text]…]`, the tagged pieces
+ * `trans.scala.inventory` `{program}` → `[[tag, name]…]`, the declaration inventory computed from the IR
+ * `trans.scala.visit` `{program, ident?, is_unit?, is_lambda?, _cast_integers?}` → texts of the top-level
+   declarations visited in turn from that state, and the state afterwards
+ * `trans.scala.state` (same request as `trans.scala`) → the state after translating history and program
+ * `trans.scala.sem` `{program}` → `{"pieces": [[tag, name|null, text]…], "condok": bool}`: the non-layout pieces the
+   program calls for (`semProgram`, IR only) and the hypothesis `condOK` of the text-level theorems -/
+open Lean Heph Heph.TransScala
+open Heph.TransKotlin (St Obj initObj programClasses flatten)
+open Driver.TransKotlin (tagJson pieceJson getPackage getHistory getProgram stJson)
 namespace Driver.TransScala
 
-def handle : Handler := fun _ _ => none
+def startObj (j : Json) : Except String Obj := do
+  let ob := after (initObj (getPackage j)) (← getHistory j)
+  pure (if (j.getObjValAs? Bool "reset").toOption.getD false then resetState ob else ob)
+
+def handle : Handler := fun op j =>
+  match op with
+  | "trans.scala" => some (do
+      let p ← getProgram j
+      pure (res (Json.str (text (← startObj j) p))))
+  | "trans.scala.doc" => some (do
+      let p ← getProgram j
+      pure (res (Json.arr ((programDoc (← startObj j) p).2.toArray.map pieceJson))))
+  | "trans.scala.state" => some (do
+      let p ← getProgram j
+      pure (res (stJson (visitProgram (← startObj j) p))))
+  | "trans.scala.visit" => some (do
+      -- visit the top-level declarations one by one from a hand-set state (no `visit_program`)
+      let p ← getProgram j
+      let st0 : St := { ident := (j.getObjValAs? Nat "ident").toOption.getD 0,
+                        isUnit := (j.getObjValAs? Bool "is_unit").toOption.getD false,
+                        isLambda := (j.getObjValAs? Bool "is_lambda").toOption.getD false,
+                        cast := (j.getObjValAs? Bool "_cast_integers").toOption.getD false,
+                        context := programClasses p }
+      let r := visitL st0 p.decls
+      pure (res (Json.mkObj [("texts", Json.arr (r.2.toArray.map fun d => Json.str (flatten d))),
+                             ("state", stJson { st := r.1 })])))
+  | "trans.scala.inventory" => some (do
+      let p ← getProgram j
+      pure (res (Json.arr ((inventory p).toArray.map fun t => Json.arr (tagJson t).toArray))))
+  | "trans.scala.sem" => some (do
+      let p ← getProgram j
+      pure (res (Json.mkObj [("pieces", Json.arr ((semProgram p).toArray.map pieceJson)),
+                             ("condok", Json.bool (condOK p))])))
+  | _ => none
 
 end Driver.TransScala
